@@ -465,9 +465,9 @@ func hasEphemeral(t types.V2Transaction) bool {
 func init() {
 	register(&Prop{
 		ID: "C13", Run: runC13, Quick: 700, Thorough: 20000, Level: "exploration",
-		Rule: "one run = fork tree handed to the node (1 run in 10 with a 150-230 block stretch), then 4-14 rebases of a v2 transaction set valid at a drawn applied index `from` (confirmed/ephemeral/mixed parents, contract revisions, renewals, storage proofs, expirations, transactions that get confirmed on the way) to a drawn index `to` on the same or another branch, or with a corrupted basis / proof bit / leaf index; then two rounds of a drawn dependency DAG pooled on the node and V2TransactionSet asked for its last transaction (tip or stale basis); oracles: error iff required, same transactions minus confirmed ones in order, every element == reference ledger at `to`, ephemeral->confirmed replacement, returned sets in dependency order with basis == tip and accepted by a fresh pool; distinct = abstract trace (revert/apply length buckets, corruption, error); non-trivial = a rebase across a fork or a DAG query",
-		Real: []string{"chain.Manager (UpdateV2TransactionSet, V2TransactionSet, AddV2PoolTransactions)", "chain.DBStore"},
-		Stub: []string{"disk: simdisk.DB"},
+		Rule:        "one run = fork tree handed to the node (1 run in 10 with a 150-230 block stretch), then 4-14 rebases of a v2 transaction set valid at a drawn applied index `from` (confirmed/ephemeral/mixed parents, contract revisions, renewals, storage proofs, expirations, transactions that get confirmed on the way) to a drawn index `to` on the same or another branch, or with a corrupted basis / proof bit / leaf index; then two rounds of a drawn dependency DAG pooled on the node and V2TransactionSet asked for its last transaction (tip or stale basis); oracles: error iff required, same transactions minus confirmed ones in order, every element == reference ledger at `to`, ephemeral->confirmed replacement, returned sets in dependency order with basis == tip and accepted by a fresh pool; distinct = abstract trace (revert/apply length buckets, corruption, error); non-trivial = a rebase across a fork or a DAG query",
+		Real:        []string{"chain.Manager (UpdateV2TransactionSet, V2TransactionSet, AddV2PoolTransactions)", "chain.DBStore"},
+		Stub:        []string{"disk: simdisk.DB"},
 		Assumptions: []string{"distances up to 100 must be supported and distances from 200 must be rejected; in between only absence of panics and correctness on success are demanded"},
 	})
 }
